@@ -23,6 +23,7 @@ type fnResult struct {
 	con           *Contract
 	err           string // outside subset
 	attachErr     string // the contract does not attach
+	dropped       []string
 	obligs        []*Oblig
 	loops         int
 	rounds        int
@@ -409,6 +410,7 @@ func (e *Engine) verifyFunc2(fn *ssa.Function, opts *fnOpts, cfg *solverCfg, sol
 	c.finalize()
 	res.obligs = c.obligs
 	res.attachErr = c.attachErr
+	res.dropped = c.dropped
 	res.loops = len(c.loopList)
 	res.returns = c.retCount
 	for _, li := range c.loopList {
